@@ -111,4 +111,14 @@ theorem check_precedes_store :
     Skel.precedes (.call "s.LookupBackend") (.call "postRequest") skel_app_proxyHandler = true ∧
     yaml_api_handlers = [([47,97,112,105,47,46,42], []), ([47,99,114,111,110,47,46,42], [97,100,109,105,110])] := by decide
 
+/-- T1: every cache and datastore key that is built from a backend ID and a request ID quotes
+    both (`%q` output is self-delimiting), so two different (backend, request) pairs can never
+    be stored or cached under one key — which `ReadRequest`/`ReadResponse` of the caching store
+    rely on when they trust a cache hit.  (`r:%s:%s` would let backend `team` with request
+    `prod:R` hit the cached request `R` of backend `team:prod`.) -/
+theorem store_keys_quote_ids :
+    cache_requestKeyFormat = [114,58,37,113,58,37,113] ∧                     -- "r:%q:%q"
+    cache_responseKeyFormat = [114,101,115,112,58,37,113,58,37,113] ∧         -- "resp:%q:%q"
+    store_requestKindFormat = [37,115,37,113] := by decide                    -- "%s%q" (prefix, backend ID)
+
 end InvProxy.C17
